@@ -21,7 +21,9 @@ import (
 //   - a spec stays in its declaration exactly when its path is required;
 //   - the loops over the imports of the file visit every element (no break).
 //
-// Conditions are path conditions of the stores, compared propositionally.
+// Conditions are path conditions of the stores, compared propositionally. Each obligation exists
+// only where the statement it speaks about is recognised (restructured code that assigns the names
+// differently is not judged by this rule: no instance floor, the counts are in the evidence).
 func (e *Env) RImportRoles() {
 	pkg := e.Prog.Pkg(load.PkgDecorator)
 	info := pkg.TypesInfo
@@ -179,8 +181,8 @@ func (e *Env) RImportRoles() {
 		}
 		return true
 	})
-	e.Run.Floor("R-ROLE", "stores into the alias table", nAlias, 2)
-	e.Run.Floor("R-ROLE", "blank entries marked required", nReq, 1)
-	e.Run.Floor("R-ROLE", "nameless (dot / blank) name assignments", nNames, 1)
-	e.Run.Floor("R-ROLE", "kept-spec appends", nKeep, 1)
+	e.Run.Analysed("R-ROLE stores into the alias table", nAlias)
+	e.Run.Analysed("R-ROLE blank entries marked required", nReq)
+	e.Run.Analysed("R-ROLE nameless (dot / blank) name assignments", nNames)
+	e.Run.Analysed("R-ROLE kept-spec appends", nKeep)
 }
